@@ -12,7 +12,7 @@ import harnesses as hreg  # noqa: E402
 TECH = "bounded symbolic execution of the real remoc functions with Kani 0.68 -> CBMC 6.11 -> CaDiCaL (SAT); one-step harnesses from arbitrary invariant-satisfying pre-states; counterexamples replayed natively with cargo kani playback"
 
 BASE_NOTE = ("Trusted: Kani/CBMC/CaDiCaL; tokio and tokio-util replaced by the deterministic models in /verif/models "
-             "(contracts from the tokio docs, diffed against real tokio by /verif/conformance); tracing off; "
+             "(contracts from the tokio docs; their synchronous operations are diffed against real tokio 1.49 by /verif/conformance during setup); tracing off; "
              "fmt::format / RandomState::new stubbed where the harness says so; the written pre-state invariants; "
              "cfg(remoc_verif) add-only hooks. Bounds and what lies outside them are listed per harness in the evidence file.")
 
